@@ -390,9 +390,9 @@ def kind_of(objs, mid, model, name, attr):
 _LOOP = [None]      # the event loop of the case being run (asyncio classes): every call is awaited to completion
 
 
-def res_of(f, *args):
+def res_of(f, *args, **kwargs):
     try:
-        r = f(*args)
+        r = f(*args, **kwargs)
         if inspect.isawaitable(r):
             if _LOOP[0] is None:
                 _LOOP[0] = asyncio.new_event_loop()
@@ -462,6 +462,12 @@ class FlatRunner(object):
         cname = self.cfg.get('cls', 'Machine')
         import flat
         kwargs.update(flat.class_kwargs(cname))
+        # what the machine hands to callbacks: positional and keyword arguments of the call
+        self.last = None
+
+        def saw(*a, **k):
+            self.last = (a, tuple(sorted(k.items())))
+        kwargs['prepare_event'] = [saw]
         self.machine = flat.get_class(cname)(**kwargs)
         for d in models:
             if all(d['id'] != i for i, _ in self.models):
@@ -514,7 +520,7 @@ class FlatRunner(object):
             return []
         return [sx_str(state_name(v))]
 
-    def call(self, obj, name, *args):
+    def call(self, obj, name, *args, **kwargs):
         """call a helper, observe, and put the model back where it was (twin by restoring)"""
         attr = self.cfg['attr']
         saved = getattr(obj, attr, _MISSING)
@@ -522,7 +528,7 @@ class FlatRunner(object):
             f = getattr(obj, name)
         except AttributeError:
             return [[1, 1], self.cur(obj)]
-        r = res_of(f, *args)
+        r = res_of(f, *args, **kwargs)
         after = self.cur(obj)
         if saved is not _MISSING and getattr(obj, attr, _MISSING) is not saved:
             self.machine.set_state(saved, obj)
@@ -536,6 +542,22 @@ class FlatRunner(object):
         helpers = [[sx_str(n), self.call(obj, n)] for n, (_, kd) in zip(names, table) if kd == [2]]
         evs = list(m.events.keys()) + [UNKNOWN]
         trig = [[sx_str(e), self.call(obj, 'trigger', e), self.call(obj, 'may_trigger', e)] for e in evs]
+        # event method with positional and keyword arguments = trigger(name, *args, **kwargs): same result, same end
+        # state, and the callbacks receive exactly those arguments; a difference is reported as result code [8, 0]
+        kinds = {un_str(n): kd for n, kd in table}
+        if kinds.get('trigger') == [2]:
+            for row in trig:
+                e = un_str(row[0])
+                if kinds.get(e) != [2]:
+                    continue
+                self.last = None
+                r1 = self.call(obj, e, 7, amount=3)
+                s1 = self.last
+                self.last = None
+                r2 = self.call(obj, 'trigger', e, 7, amount=3)
+                s2 = self.last
+                if (r1, s1) != (r2, s2) or (s1 is not None and s1 != ((7,), (('amount', 3),))):
+                    row[1] = [[8, 0], row[1][1]]
         iss, tos = [], []
         for s in m.states.keys():
             for fn, out in ((is_name, iss), (to_name, tos)):
